@@ -185,7 +185,7 @@ def install_seams():
 
 
 def _wall_alarm(signum, frame):
-    raise SimLimit("wall-clock limit: the code under simulation keeps the CPU without ever yielding to the event loop")
+    raise SimLimit("CPU-time limit: the code under simulation keeps the CPU without ever yielding to the event loop")
 
 
 def run_sim(main, *, salt=0, wall_offset=1_700_000_000.0, max_steps=5_000_000, max_vtime=None,
@@ -211,21 +211,23 @@ def run_sim(main, *, salt=0, wall_offset=1_700_000_000.0, max_steps=5_000_000, m
     _prod_ctr = 0
     _active = loop
     asyncio.set_event_loop(loop)
-    # a step cap cannot bound a loop that never awaits: a real-time alarm turns such a hang into a reportable SimLimit
-    # (wall time is only a safety net here, it never influences a run that ends)
+    # a step cap cannot bound a loop that never awaits: an alarm on the CPU time this process consumes (not on wall time,
+    # which depends on what else the machine is doing) turns such a hang into a reportable SimLimit; it is only a
+    # safety net, it never influences a run that ends
     import signal
     import threading
     armed = False
     if wall_limit and threading.current_thread() is threading.main_thread():
-        old_handler = signal.signal(signal.SIGALRM, _wall_alarm)
-        signal.setitimer(signal.ITIMER_REAL, wall_limit)
+        old_handler = signal.signal(signal.SIGVTALRM, _wall_alarm)
+        # keeps firing: the code under simulation may swallow the first one in a broad `except Exception`
+        signal.setitimer(signal.ITIMER_VIRTUAL, wall_limit, 0.5)
         armed = True
     try:
         return loop.run_until_complete(main(loop))
     finally:
         if armed:
-            signal.setitimer(signal.ITIMER_REAL, 0)
-            signal.signal(signal.SIGALRM, old_handler)
+            signal.setitimer(signal.ITIMER_VIRTUAL, 0)
+            signal.signal(signal.SIGVTALRM, old_handler)
         _active = None
         asyncio.set_event_loop(None)
         try:
